@@ -179,6 +179,9 @@ Formatted(fs, k, t) == IF k > Len(fs) THEN t
 \*      pairs in ascending key order
 \*   valint: value argument (DEST_VAR_VALUE) on an int variable: used like a flag, stores arg.setval in the variable of
 \*      argument arg.dst (several value arguments may share one variable)
+\*   sub: sub-group argument (Handler::addArgument( arg_spec, subGroup, desc)): used like a flag, it enters the handler
+\*      described by arg.sub (a configuration of its own); the words that follow are offered to that handler until one of
+\*      them is not for it.  Projection: the destinations of the sub-group's arguments, as a nested sequence
 IntKinds == {"int", "optint", "level", "vecint", "setint", "listint", "dequeint", "arr3", "sarr3", "fwdint", "msetint",
              "stackint", "queueint", "pqint", "bits8", "vecbool", "dynbits"}
 ContKinds == {"vecint", "vecstr", "setint", "listint", "dequeint", "arr3", "sarr3", "fwdint", "msetint",
@@ -187,6 +190,10 @@ ArrKinds == {"arr3", "sarr3"}
 GrowBitKinds == {"vecbool", "dynbits"}
 \* second destination variable of a pair argument (DEST_PAIR): arg.pair = [on, val, init]
 PairOn(arg) == "pair" \in DOMAIN arg /\ arg.pair.on
+IsSub(arg) == arg.kind = "sub"
+\* value mode "command" (std::string destinations only): "the remaining argument string is passed as value to its
+\* destination variable"; for a positional argument "this and all the following arguments and values"
+IsCmd(arg) == arg.vm = "cmd"
 ElemIsInt(kind) == kind \in IntKinds
 IsContainer(kind) == kind \in ContKinds
 IsArr(kind) == kind \in ArrKinds
@@ -281,10 +288,16 @@ FoldTokens(arg, toks, k, c, filled) ==
         ELSE FoldTokens(arg, toks, k + 1, AddTo(arg.kind, c, r.v), filled)
 
 \* ---------------------------------------------------------------- state
+\* sub[a]: the state of the handler of sub-group argument a (it lives as long as the main handler: a sub-group that is
+\* entered twice goes on where it was left), 0 for every other argument; dest[a] / aux[a] of a sub-group argument are the
+\* destinations / second variables of that state
+RECURSIVE InitState(_)
 InitState(cfg) ==
+   LET S == [a \in 1..NArgs(cfg) |-> IF IsSub(cfg.args[a]) THEN InitState(cfg.args[a].sub) ELSE 0] IN
    [i |-> 1, pos |-> 0, nval |-> FALSE, dashed |-> FALSE, last |-> 0,
-    dest |-> [a \in 1..NArgs(cfg) |-> cfg.args[a].init],
-    aux |-> [a \in 1..NArgs(cfg) |-> IF PairOn(cfg.args[a]) THEN cfg.args[a].pair.init ELSE 0],
+    dest |-> [a \in 1..NArgs(cfg) |-> IF IsSub(cfg.args[a]) THEN S[a].dest ELSE cfg.args[a].init],
+    aux |-> [a \in 1..NArgs(cfg) |-> IF IsSub(cfg.args[a]) THEN S[a].aux ELSE IF PairOn(cfg.args[a]) THEN cfg.args[a].pair.init ELSE 0],
+    sub |-> S,
     has |-> [a \in 1..NArgs(cfg) |-> FALSE],
     cnt |-> [a \in 1..NArgs(cfg) |-> 0],
     cleared |-> [a \in 1..NArgs(cfg) |-> FALSE],
@@ -298,7 +311,8 @@ WithCursor(st, e) == [st EXCEPT !.i = e.i, !.pos = e.pos, !.nval = e.nval, !.das
 \* default cardinality: at most one use for scalars, exactly three values for the tuple, none for containers
 EffCard(arg) == IF arg.card.t # "dflt" THEN arg.card
                 ELSE IF arg.kind = "tup" THEN [t |-> "exact", a |-> 3, b |-> 0]
-                ELSE IF IsContainer(arg.kind) \/ arg.kind = "level" THEN [t |-> "none", a |-> 0, b |-> 0]
+                \* "a sub-group can hold multiple arguments, so it should be possible to call it multiple times"
+                ELSE IF IsContainer(arg.kind) \/ arg.kind \in {"level", "sub"} THEN [t |-> "none", a |-> 0, b |-> 0]
                 ELSE [t |-> "max", a |-> 1, b |-> 0]
 CardMax(card) == CASE card.t = "max" -> card.a [] card.t = "exact" -> card.a
                    [] card.t = "range" -> card.b [] OTHER -> -1
@@ -337,6 +351,9 @@ AssignTo0(cfg, st, a, hasv, v, count) ==
              ELSE [inner EXCEPT !.i = st.i, !.pos = st.pos, !.nval = st.nval, !.dashed = st.dashed, !.depth = st.depth]
    ELSE IF arg.kind = "flag" THEN
         [st EXCEPT !.dest[a] = IF arg.unset THEN FALSE ELSE ~arg.init, !.has[a] = TRUE, !.cnt[a] = c1]
+   ELSE IF arg.kind = "sub" THEN
+        \* the sub-group argument itself: "was used" (the words behind it are handled by StepCore)
+        [st EXCEPT !.has[a] = TRUE, !.cnt[a] = c1]
    ELSE IF arg.kind = "valint" THEN
         \* value argument: "it is checked that the original value of the destination variable is modified only once";
         \* without the check the last argument that modifies the variable wins
@@ -413,6 +430,7 @@ HandleArg(cfg, st, a, hasv, v, fromCmd) ==
 
 \* end of the command line
 Mag(x) == IF x < 0 THEN 0 - x ELSE x
+RECURSIVE EndChecks(_, _)
 EndChecks(cfg, st) ==
    LET A == 1..NArgs(cfg)
        used(S) == UsesOf(st, S) # {}
@@ -433,12 +451,28 @@ EndChecks(cfg, st) ==
    ELSE IF st.reqd # {} THEN Fail(st)
    ELSE IF \E k \in 1..Len(cfg.hcons) : hbad(cfg.hcons[k]) /\ ~hundef(cfg.hcons[k]) THEN Fail(st)
    ELSE IF \E k \in 1..Len(cfg.hcons) : hundef(cfg.hcons[k]) THEN Undef(st)
+   \* the documentation does not say when (or whether) the end-of-line rules of a sub-group handler are checked: mandatory
+   \* arguments, lower cardinality bounds, requirements and handler constraints inside a sub-group that are not met
+   \* leave the outcome open
+   ELSE IF \E a \in A : IsSub(cfg.args[a]) /\ EndChecks(cfg.args[a].sub, [st.sub[a] EXCEPT !.out = "run"]).out # "ok" THEN Undef(st)
    ELSE [st EXCEPT !.out = "ok"]
 
 \* ---------------------------------------------------------------- one step of iterateArguments
 \* fromCmd: FALSE while the words come from an argument file or the environment variable
 \* (cardinality is then not counted: a later command line value may override).
-StepWords(cfg, words, st, fromCmd) ==
+\* StepCore = Handler::evalSingleArgument for one handler (main handler, member of a group or sub-group handler).  Results
+\* beyond those of StepWords:  "unk": the element is not for this handler (state unchanged), "amb": ambiguous abbreviation,
+\* "last": an argument with value mode "command" took the rest of the command line (evaluation stops there).
+Unk(st) == [st EXCEPT !.out = "unk"]
+\* the words from index `from` on, "like they were entered on the command line": joined with single blanks
+RestOfLine(ws, from) ==
+   IF from > Len(ws) THEN <<>>
+   ELSE LET F[k \in from..Len(ws)] == IF k = from THEN ws[k] ELSE F[k - 1] \o <<32>> \o ws[k] IN F[Len(ws)]
+AtEnd(st, words) == [st EXCEPT !.i = Len(words) + 1, !.pos = 0, !.nval = FALSE]
+Last(st) == IF st.out = "run" THEN [st EXCEPT !.out = "last"] ELSE st
+RECURSIVE StepCore(_, _, _, _)
+RECURSIVE SubLoop(_, _, _, _)
+StepCore(cfg, words, st, fromCmd) ==
    LET e == Elem(words, st.i, st.pos, st.nval, st.dashed, FALSE) IN
    CASE e.t = "end"   -> [WithCursor(st, e) EXCEPT !.out = "eol"]
      [] e.t = "err"   -> Fail(st)
@@ -447,24 +481,72 @@ StepWords(cfg, words, st, fromCmd) ==
           LET s1 == WithCursor(st, e) IN
           IF st.last # 0 /\ cfg.args[st.last].multi THEN
              LET s2 == AssignTo(cfg, s1, st.last, TRUE, e.w, fromCmd) IN s2
+          ELSE IF PosArg(cfg) # 0 /\ IsCmd(cfg.args[PosArg(cfg)]) THEN
+             \* positional argument with value mode "command": "this and all the following arguments and values ... should
+             \* be assigned as complete argument string to the value of the argument".  Left open: a value that is only a
+             \* part of its word (behind "--key="), words from a file line or the environment variable
+             IF ~fromCmd \/ st.nval \/ st.pos > 0 THEN Undef(st)
+             ELSE Last(HandleArg(cfg, AtEnd(s1, words), PosArg(cfg), TRUE, RestOfLine(words, e.i - 1), fromCmd))
           ELSE IF PosArg(cfg) # 0 THEN HandleArg(cfg, s1, PosArg(cfg), TRUE, e.w, fromCmd)
-          ELSE Fail(st)
+          ELSE Unk(st)
      [] OTHER ->      \* short or long key
           LET a == IF e.t = "short" THEN LookupShort(cfg, e.c) ELSE LookupLong(cfg, e.w)
               s1 == WithCursor(st, e) IN
-          IF a <= 0 THEN Fail(st)
+          IF a = 0 THEN Unk(st)
+          ELSE IF a < 0 THEN [st EXCEPT !.out = "amb"]
           ELSE IF a = EndValuesIdx(cfg) THEN
                \* --endvalues: takes no value; the next free value no longer belongs to the last argument
                (IF s1.nval THEN [s1 EXCEPT !.last = 0] ELSE [s1 EXCEPT !.last = 0])
-          ELSE IF cfg.args[a].pos THEN Fail(st)
+          ELSE IF cfg.args[a].pos THEN Unk(st)
           ELSE LET arg == cfg.args[a]
                    s2 == [s1 EXCEPT !.last = a] IN
-               IF arg.vm = "none" THEN HandleArg(cfg, s2, a, FALSE, <<>>, fromCmd)
+               IF IsSub(arg) THEN
+                  \* sub-group: the argument is handled like a flag (constraints, mandatory), then the following words are
+                  \* offered to the sub-group's handler as long as it takes them; the first word that is not for it is handled
+                  \* by this handler again.  A key ends the value list of a multi-value argument, here and in the sub-group
+                  \* (when it is entered again).  Left open: "--key=value" on the sub-group argument, sub-groups entered from
+                  \* an argument file / the environment variable (the sub-group's handler does not know about the source)
+                  IF ~fromCmd \/ s1.nval THEN Undef(st)
+                  ELSE LET s3 == HandleArg(cfg, [s1 EXCEPT !.last = 0], a, FALSE, <<>>, fromCmd) IN
+                       IF s3.out # "run" THEN s3
+                       ELSE LET sin == [s3.sub[a] EXCEPT !.i = s3.i, !.pos = s3.pos, !.nval = s3.nval, !.dashed = s3.dashed, !.last = 0, !.out = "run"]
+                                r == SubLoop(arg.sub, words, sin, fromCmd) IN
+                            IF r.out # "run" THEN [s3 EXCEPT !.out = r.out]
+                            ELSE [s3 EXCEPT !.sub[a] = r, !.dest[a] = r.dest, !.aux[a] = r.aux,
+                                            !.i = r.i, !.pos = r.pos, !.nval = r.nval, !.dashed = r.dashed]
+               ELSE IF IsCmd(arg) THEN
+                  \* value mode "command": the remaining argument string is the value, evaluation ends here.
+                  \* "argument_error when called while evaluating a group of single-character arguments": the key must be a
+                  \* word of its own ("-x", "--exec").  Left open: "--exec=..." (is the rest of that word part of the value?),
+                  \* nothing behind the key (empty value or missing value?), file lines / environment variable
+                  IF ~fromCmd \/ s1.nval THEN Undef(st)
+                  ELSE IF e.t = "short" /\ ~(st.pos = 0 /\ s1.pos = 0) THEN Fail(st)
+                  ELSE IF s1.i > Len(words) THEN Undef(st)
+                  ELSE Last(HandleArg(cfg, AtEnd(s2, words), a, TRUE, RestOfLine(words, s1.i), fromCmd))
+               ELSE IF arg.vm = "none" THEN HandleArg(cfg, s2, a, FALSE, <<>>, fromCmd)
                ELSE LET e2 == Elem(words, s2.i, s2.pos, s2.nval, s2.dashed, arg.vm = "req") IN
                     IF e2.t = "val" THEN HandleArg(cfg, WithCursor(s2, e2), a, TRUE, e2.w, fromCmd)
                     ELSE IF e2.t = "undef" THEN Undef(st)
                     ELSE IF arg.vm = "opt" THEN HandleArg(cfg, s2, a, FALSE, <<>>, fromCmd)
                     ELSE Fail(st)
+
+\* the words offered to a sub-group handler: result "run" = state in front of the first element it did not take (or at the
+\* end of the words); an ambiguous abbreviation inside the sub-group (the main handler may know the word) and a command-mode
+\* argument inside a sub-group are not documented
+SubLoop(cfg, words, st, fromCmd) ==
+   LET r == StepCore(cfg, words, st, fromCmd) IN
+   IF r.out = "run" THEN SubLoop(cfg, words, r, fromCmd)
+   ELSE IF r.out \in {"unk", "eol"} THEN [st EXCEPT !.out = "run"]
+   ELSE IF r.out \in {"amb", "last"} THEN Undef(st)
+   ELSE r
+
+\* one step of the handler that evaluates the command line: an element nobody knows is an error, a command-mode argument
+\* ends the line (the end-of-line checks follow)
+StepWords(cfg, words, st, fromCmd) ==
+   LET r == StepCore(cfg, words, st, fromCmd) IN
+   IF r.out \in {"unk", "amb"} THEN Fail(st)
+   ELSE IF r.out = "last" THEN [r EXCEPT !.out = "eol"]
+   ELSE r
 
 \* all words of one source (one file line, the environment string, or argv)
 RunWords(cfg, words, st, fromCmd) ==
